@@ -27,7 +27,7 @@ type ProgOpts struct {
 	XPath    bool // allow XPath conditions
 	OrEarlyEnd bool // allow inclusive branches that end in their own end event
 	StuckXor bool // allow exclusive gateways with no default and possibly no true condition
-	ActivityDefault bool // allow default flows on activities (known-finding trigger)
+	ActivityDefault bool // allow default flows on activities
 	DataConds bool // conditions may read boolean results written by tasks that certainly ran before (also by other tokens: sub-process content, joined parallel branches)
 	SubInLoop bool // allow sub-processes inside loops (known-finding trigger)
 	ForkInOr bool // allow forking blocks inside inclusive branches (known-finding trigger)
@@ -347,7 +347,7 @@ func (pg *progGen) blockInner(g *Graph, from string, cond *Cond, outPos int, dep
 		f := g.connect(d, from, t.ID, cond, outPos)
 		j := g.addNode(&Node{ID: d.fresh("CJ"), Kind: "or"})
 		nb := 1 + pg.d.N(3)
-		// a default flow on an activity is a known-finding trigger (the engine ignores the attribute)
+		// a default flow on the activity: taken only if no conditional flow holds
 		hasDefault := pg.opts.ActivityDefault && pg.d.N(2) == 1
 		total := nb
 		if hasDefault {
